@@ -277,21 +277,50 @@ pub proof fn lemma_fits(p: nat, size: nat)
 {
     let e = enc_len((p + 7) / 8);
     let r = roundup_spec(e + p);
-    assert(r >= e + p);
     if size == r {
-        if e + p <= 896 {
-            assert(r <= 896);
-            assert(enc_len(r / 8) == 1);
-        } else {
-            assert(r > e + p);
-            assert(r <= e + p + 128);
-            assert(r / 8 <= (p + 7) / 8 + 17);
-        }
+        if e + p <= 896 { lemma_fits_small(p); } else { lemma_fits_large(p); }
     } else {
-        assert(r % 8 == 0);
+        lemma_roundup_basic(e + p);
         assert(size >= r + 8);
+        assert(size / 8 <= 0x1fff_ffff);
         assert(enc_len(size / 8) <= 5);
     }
 }
+pub proof fn lemma_roundup_basic(x: nat)
+    requires 1 <= x <= 0xffff_ffff
+    ensures roundup_spec(x) >= x, roundup_spec(x) % 8 == 0, x > 896 ==> x < roundup_spec(x) <= x + 128
+{}
+proof fn lemma_fits_small(p: nat)
+    requires enc_len((p + 7) / 8) + p <= 896
+    ensures enc_len(roundup_spec(enc_len((p + 7) / 8) + p) / 8) + p <= roundup_spec(enc_len((p + 7) / 8) + p)
+{
+    let e = enc_len((p + 7) / 8);
+    let r = roundup_spec(e + p);
+    assert((p + 7) / 8 <= 0x7F);
+    assert(e == 1);
+    assert(r <= 896 && r >= e + p);
+    assert(r / 8 <= 112);
+    assert(enc_len(r / 8) == 1);
+}
+proof fn lemma_fits_large(p: nat)
+    requires enc_len((p + 7) / 8) + p > 896, p + 7 <= u32::MAX
+    ensures enc_len(roundup_spec(enc_len((p + 7) / 8) + p) / 8) + p <= roundup_spec(enc_len((p + 7) / 8) + p)
+{
+    let e = enc_len((p + 7) / 8);
+    let x = e + p;
+    let r = roundup_spec(x);
+    assert(r == ((x + 128) / 128) * 128);
+    assert(x < r && r <= x + 128);
+    // r/8 is at most (p+7)/8 + 17: its encoding is at most one byte longer
+    let a = (p + 7) / 8;
+    assert(r / 8 <= a + 17);
+    lemma_enc_len_step(a, r / 8);
+    assert(enc_len(r / 8) <= e + 1);
+}
+/// the width thresholds are 128 apart by factors of 128: adding 17 crosses at most one of them
+proof fn lemma_enc_len_step(a: nat, c: nat)
+    requires c <= a + 17, a <= 0x2000_0000
+    ensures enc_len(c) <= enc_len(a) + 1
+{}
 
 } // verus!
